@@ -55,13 +55,21 @@ func child() {
 	rng := r.Rand("c08|" + name)
 	nOff := 2
 	if thorough {
-		nOff = 8
+		nOff = 24
+		pendings = []int{1, 2, 8, 32}
 	}
 	parts := strings.Split(name, "|")
+	sampleAt = 1 + int64(len(name)*7+int(seed))%11
+	crashAt, _ := strconv.Atoi(os.Getenv("C08_SELFTEST_CRASH_AT")) // harness self-test of the process-death path
 	idx := 0
 	// each case is announced as "#<index> <label>" so that the parent can resume after a crash
 	next := func() bool {
 		idx++
+		if crashAt > 0 && idx == crashAt && skip == 0 {
+			rep.Progress("selftest|crash@nowhere|pending=1 :: deliberate crash")
+			go func() { var m map[string]int; m["x"] = 1 }()
+			time.Sleep(time.Second)
+		}
 		return idx-1 >= skip
 	}
 	switch parts[0] {
@@ -113,7 +121,7 @@ func child() {
 		case "cancel":
 			for _, f := range []string{"cancel", "deadline"} {
 				for _, inst := range cancelInstants(kind) {
-					for i, p := range []int{1, 2, 8} {
+					for i, p := range pendings {
 						if !next() {
 							continue
 						}
